@@ -558,21 +558,15 @@ Proof.
         [|intros H; injection H as <- <- <- <- <-; exists []; split; [symmetry; apply app_nil_r|left; reflexivity]].
       rewrite (find_set_cached _ _ _ _ F2).
       destruct (existsb _ (w_tcp_listeners w)).
-      * intros H; injection H as <- <- <- <- <-. eexists. split; [reflexivity|]. right. right. left.
-        do 3 eexists. reflexivity.
+      * (* stale cached connection: the second round dials AND writes *)
+        intros H; injection H as <- <- <- <- <-. eexists. split; [reflexivity|]. right. right. right.
+        do 4 eexists. reflexivity.
       * intros H; injection H as <- <- <- <- <-; exists []; split; [symmetry; apply app_nil_r|left; reflexivity].
   - destruct (existsb _ (w_tcp_listeners w));
       [|intros H; injection H as <- <- <- <- <-; exists []; split; [symmetry; apply app_nil_r|left; reflexivity]].
-    cbn [ps_clients with_clients].
-    destruct (find_client id (set_client_cached id (Some (w_next_conn w)) (ps_clients p))) as [cl2|] eqn:F2.
-    + rewrite (find_set_cached _ _ _ _ F2).
-      destruct (conn_open _ _).
-      * intros H; injection H as <- <- <- <- <-. eexists. split; [rewrite <- app_assoc; reflexivity|].
-        right. right. right. do 4 eexists. reflexivity.
-      * intros H; injection H as <- <- <- <- <-. eexists. split; [reflexivity|]. right. right. left.
-        do 3 eexists. reflexivity.
-    + intros H; injection H as <- <- <- <- <-. eexists. split; [reflexivity|]. right. right. left.
-      do 3 eexists. reflexivity.
+    (* the round that dials also writes *)
+    intros H; injection H as <- <- <- <- <-. eexists. split; [reflexivity|].
+    right. right. right. do 4 eexists. reflexivity.
 Qed.
 
 Lemma failover_send_outs li local rs f b p cs w p' cs' w' outs ok f' :
@@ -931,7 +925,7 @@ Proof.
     + destruct (conn_open cs c); [intros H; injection H as <- <- <- <- <-; apply grows_refl|].
       intros H. exact (IH _ _ _ _ _ _ _ _ _ _ _ _ _ _ H).
     + destruct (existsb _ (w_tcp_listeners w)); [|intros H; injection H as <- <- <- <- <-; apply grows_refl].
-      intros H. apply IH in H. eapply grows_trans; [|exact H].
+      intros H. injection H as <- <- <- <- <-.
       intros cn I. apply in_app_or in I. destruct I as [I|[<-|[]]].
       * left. exists cn. repeat split. exact I.
       * right. split; reflexivity.
